@@ -655,7 +655,10 @@ def run(ctx):
 
         # ---- F. IS*/NA truth table ---------------------------------------
         nonerr = {'number': 1.5, 'zero': 0, 'text': 'abc', 'numtext': '12',
-                  'bool': True, 'blank': None}
+                  'bool': True, 'blank': None,
+                  # texts that merely READ like error values are texts
+                  'text-#N/A': '#N/A', 'text-#DIV/0!': '#DIV/0!',
+                  'text-#VALUE!': '#VALUE!'}
         table = []
         for code in ERROR_CODES:
             table.append(('ISERROR', ('err', code), True))
@@ -666,7 +669,8 @@ def run(ctx):
             table.append(('ISERR', v, False))
             table.append(('ISNA', v, False))
             table.append(('ISNUMBER', v, tn in ('number', 'zero')))
-            table.append(('ISTEXT', v, tn in ('text', 'numtext')))
+            table.append(('ISTEXT', v, tn in ('text', 'numtext') or
+                          tn.startswith('text-')))
             table.append(('ISBLANK', v, tn == 'blank'))
         for fname, v, want in table:
             lv = mkerr(v[1]) if isinstance(v, tuple) else v
